@@ -5,6 +5,7 @@ package main
 
 import (
 	"fmt"
+	"go/token"
 	"go/types"
 	"strings"
 
@@ -19,6 +20,7 @@ const (
 type bearer struct {
 	token   Value
 	present bool
+	raw     bool // token holds the whole header value
 }
 
 func init() {
@@ -28,19 +30,44 @@ func init() {
 		p.objs[fmt.Sprintf("bearer:%p", c)] = &bearer{token: a[0], present: p.branch(p.boolArg(a[1]))}
 		return cv
 	})
-	reg(authPkg+".AuthFromMD", func(p *Path, _ *frame, a []Value) Value {
+	// CtxWithAuthHeader(header, present): the incoming context carries (or not) one
+	// "authorization" metadata value; everything above grpc/metadata — the
+	// middleware's MD wrapper, auth.AuthFromMD's scheme parsing, regatta's
+	// authFunc — is interpreted from source.
+	reg(verifPkg+".CtxWithAuthHeader", func(p *Path, _ *frame, a []Value) Value {
+		cv := p.newCtx(nil, true, false)
+		c := p.ctxOf(cv)
+		p.objs[fmt.Sprintf("bearer:%p", c)] = &bearer{token: a[0], present: p.branch(p.boolArg(a[1])), raw: true}
+		return cv
+	})
+	mdType := func(p *Path) (types.Type, types.Type) {
+		return types.Typ[types.String], types.NewSlice(types.Typ[types.String])
+	}
+	reg("google.golang.org/grpc/metadata.FromIncomingContext", func(p *Path, _ *frame, a []Value) Value {
 		c := p.ctxOf(a[0])
 		for x := c; x != nil; x = x.parent {
 			if b, ok := p.objs[fmt.Sprintf("bearer:%p", x)]; ok {
 				bb := b.(*bearer)
-				if bb.present {
-					return Tuple{bb.token, Iface{}}
+				if !bb.present {
+					break
 				}
-				break
+				kt, vt := mdType(p)
+				hv := bb.token
+				if !bb.raw {
+					hv = p.binop(token.ADD, types.Typ[types.String], types.Typ[types.String], "bearer ", bb.token)
+				}
+				return Tuple{&Map{K: []Value{"authorization"}, V: []Value{[]Value{hv}}, KT: kt, VT: vt}, p.ctx.T}
 			}
 		}
-		// codes.Unauthenticated = 16
-		return Tuple{"", p.statusErr(p.ctx.BV(16, 32), "Request unauthenticated with bearer")}
+		return Tuple{(*Map)(nil), p.ctx.F}
+	})
+	reg("google.golang.org/grpc/metadata.Pairs", func(p *Path, _ *frame, a []Value) Value {
+		kv, _ := a[0].([]Value)
+		if len(kv) != 0 {
+			panic(unsupported{"metadata.Pairs with arguments"})
+		}
+		kt, vt := mdType(p)
+		return &Map{KT: kt, VT: vt}
 	})
 	reg(verifPkg+".SetConfig", func(p *Path, _ *frame, a []Value) Value {
 		k, _ := p.concreteString(a[0])
@@ -61,6 +88,10 @@ func init() {
 			return p.ctx.Bool(s == "true")
 		}
 		return p.ctx.F
+	})
+	// call options are opaque to the harness-provided clients
+	reg("google.golang.org/grpc.WaitForReady", func(p *Path, _ *frame, a []Value) Value {
+		return Iface{T: types.NewPointer(types.NewStruct(nil, nil)), V: &NativeObj{Kind: "noop"}}
 	})
 	reg(viperPkg+".GetUint64", func(p *Path, _ *frame, a []Value) Value { return p.ctx.BV(0, 64) })
 	// RegistrationClosure(fn, idx): the idx-th anonymous function of cmd.<fn>
